@@ -1,6 +1,7 @@
 mod common;
 mod c02;
 mod c03;
+mod c04;
 mod c06;
 mod c07;
 mod c08;
@@ -29,6 +30,7 @@ fn registry(id: &str) -> Option<(RunFn, ReplayFn)> {
     match id {
         "C02" => Some((c02::run, c02::replay)),
         "C03" => Some((c03::run, c03::replay)),
+        "C04" => Some((c04::run, c04::replay_any)),
         "C06" => Some((c06::run, c06::replay)),
         "C07" => Some((c07::run, c07::replay)),
         "C08" => Some((c08::run, c08::replay)),
@@ -60,7 +62,7 @@ fn main() {
         match (prop, fam) {
             ("C16", "one") => c16::worker_one(arg),
             ("C16", _) => c16::worker(fam, start, end, step, arg),
-            ("C02", _) => c02::worker(fam, start, end, step, arg),
+            ("C02", _) | ("C04", _) => c02::worker(fam, start, end, step, arg),
             _ => panic!("unknown worker"),
         }
         return;
